@@ -143,11 +143,19 @@ func (m *MonSwaps) probeRoundTrip(s *Sim, p ammtypes.Pool, A, B string, x sdkmat
 	bal := func(d string) sdkmath.Int { return app.BankKeeper.GetBalance(ctx, probeAddr, d).Amount }
 	a0, b0 := bal(A), bal(B)
 	form := "exact_in"
+	// spot prices at the start and after the first leg (the two extremes of the trip)
+	aPerB := m.marginal(s, ctx, p.PoolId, A, B)
+	bPerA := m.marginal(s, ctx, p.PoolId, B, A)
+	mid := func() {
+		aPerB = math.Max(aPerB, m.marginal(s, ctx, p.PoolId, A, B))
+		bPerA = math.Max(bPerA, m.marginal(s, ctx, p.PoolId, B, A))
+	}
 	if !exactOut {
 		out1, err := m.sell(s, ctx, p.PoolId, sdk.NewCoin(A, x), B)
 		if err != nil || !out1.IsPositive() {
 			return
 		}
+		mid()
 		if _, err := m.sell(s, ctx, p.PoolId, sdk.NewCoin(B, out1), A); err != nil {
 			return
 		}
@@ -157,6 +165,7 @@ func (m *MonSwaps) probeRoundTrip(s *Sim, p ammtypes.Pool, A, B string, x sdkmat
 		if err != nil || !in1.IsPositive() {
 			return
 		}
+		mid()
 		if _, err := m.buy(s, ctx, p.PoolId, B, sdk.NewCoin(A, in1)); err != nil {
 			return
 		}
@@ -170,7 +179,7 @@ func (m *MonSwaps) probeRoundTrip(s *Sim, p ammtypes.Pool, A, B string, x sdkmat
 	p2, _ := app.AmmKeeper.GetPool(ctx, p.PoolId)
 	ra2, _ := reserveOf(p2, A).ToLegacyDec().Float64()
 	rb2, _ := reserveOf(p2, B).ToLegacyDec().Float64()
-	allowA, allowB := 2.0, 2.0
+	allowA, allowB := 2.0+2*aPerB, 2.0+2*bPerA
 	if unequal {
 		// each swap's power term carries 1e-8 relative precision; an excess in the intermediate token
 		// comes back at (no better than) the marginal price of the second swap. Generous upper bounds.
@@ -188,6 +197,37 @@ func (m *MonSwaps) probeRoundTrip(s *Sim, p ammtypes.Pool, A, B string, x sdkmat
 	if (fa > allowA && fb >= 0) || (fb > allowB && fa >= 0) {
 		s.Violate("C03", "round_trip_gain_"+form, "history probe", "pool %d (weights %s:%s fee %s) at height %d: a round trip %s -> %s -> %s of %s (%s form) on reserves %s/%s leaves the trader with %s%s and %s%s more than before (allowance %.3f / %.3f)", p.PoolId, fmtW(p, A), fmtW(p, B), p.PoolParams.SwapFee, s.Height, A, B, A, x, form, reserveOf(p, A), reserveOf(p, B), da, A, db, B, allowA, allowB)
 	}
+}
+
+// marginal: how many base units of `num` one base unit of `den` is worth at the pool's spot price
+// on ctx ((R_num/w_num)/(R_den/w_den)), at least 1. Reserves are integers: the fee skim and the
+// payout each round by up to one base unit of their token, and on a lopsided pool one unit of the
+// scarce token is worth many units of the other - the probes' allowance counts one base unit of
+// EITHER token per executed swap, valued in the token the result is measured in.
+func (m *MonSwaps) marginal(s *Sim, ctx sdk.Context, pool uint64, num, den string) float64 {
+	p, ok := s.N0.App.AmmKeeper.GetPool(ctx, pool)
+	if !ok {
+		return 1
+	}
+	var rn, rd, wn, wd float64
+	for _, a := range p.PoolAssets {
+		r, _ := a.Token.Amount.ToLegacyDec().Float64()
+		w, _ := a.Weight.ToLegacyDec().Float64()
+		if a.Token.Denom == num {
+			rn, wn = r, w
+		}
+		if a.Token.Denom == den {
+			rd, wd = r, w
+		}
+	}
+	if rd <= 0 || wn <= 0 || wd <= 0 {
+		return 1
+	}
+	v := (rn / wn) / (rd / wd)
+	if v < 1 {
+		return 1
+	}
+	return v
 }
 
 func fmtW(p ammtypes.Pool, d string) string {
@@ -208,6 +248,7 @@ func (m *MonSwaps) probeSplit(s *Sim, p ammtypes.Pool, A, B string, x sdkmath.In
 	}
 	k := float64(len(pieces))
 	if !exactOut {
+		bPerA := m.marginal(s, ctx1, p.PoolId, B, A) // the best price of the path is the one at its start
 		single, err := m.sell(s, ctx1, p.PoolId, sdk.NewCoin(A, x), B)
 		if err != nil {
 			return
@@ -221,7 +262,7 @@ func (m *MonSwaps) probeSplit(s *Sim, p ammtypes.Pool, A, B string, x sdkmath.In
 			sum = sum.Add(o)
 		}
 		s.Stats.Probe("swap_split_checked_exact_in")
-		allow := k + 1
+		allow := (k + 1) * (1 + bPerA)
 		if unequal {
 			allow += (k + 1) * 1e-8 * rb
 		}
@@ -244,7 +285,7 @@ func (m *MonSwaps) probeSplit(s *Sim, p ammtypes.Pool, A, B string, x sdkmath.In
 		sum = sum.Add(i)
 	}
 	s.Stats.Probe("swap_split_checked_exact_out")
-	allow := k + 1
+	allow := (k + 1) * (1 + m.marginal(s, ctx1, p.PoolId, A, B)) // ctx1 is at the end of the path, where B is dearest
 	if unequal {
 		// the power term of an exact-out swap is (B_out/(B_out-out))^(w_out/w_in) >= 1 and multiplies B_in
 		pw := 1.0
